@@ -66,3 +66,12 @@ def witness_F16(scratch, k):
         probes = [a for l, a in zip(w["lines"], ans) if l.startswith("? ")]
         ok = ok and bool(final) and bool(probes) and not any(w["phantom"] in p for p in probes)
     return ok
+
+
+def witness_F16c(scratch, k):
+    """page-link query interleaved with a rule installation misses a link that every atomic probe lists"""
+    w = json.load(open(os.path.join(ROOT, k["witness"])))
+    ans = _run_lines(scratch, w["lines"])
+    final = [a for l, a in zip(w["lines"], ans) if l.startswith("co step 0") and a.startswith("done ")]
+    probes = [a for l, a in zip(w["lines"], ans) if l.startswith("? ")]
+    return bool(final) and bool(probes) and all(w["missed"] in p for p in probes) and w["missed"] not in final[0]
